@@ -6,7 +6,7 @@ COMMON_ASSUMPTIONS = [
 ]
 
 CHECKS = {
-    "TSIZE": dict(runs=[dict(pkg="rib", harness=h, reach=["end"], validate=0, opts=dict(budget_s=600, only=["C01:","C02:","C03:","C06:","C07:","C08:","C12:","C16:"])) for h in ("VfRIB_t1","VfRIB_t2","VfRIB_tOrder","VfC08_flush_t","VfC07_getRIB_t","VfC16_mirror_t")], level_text="", level_note=""),
+    "TSIZE": dict(runs=[dict(pkg="rib", harness=h, reach=["end"], validate=0, opts=dict(budget_s=2400, only=["C01:","C02:","C03:","C06:","C12:"])) for h in ("VfRIB_t2","VfRIB_t1","VfRIB_t1r")], level_text="", level_note=""),
     "C05": dict(
         runs=[
             dict(pkg="server", harness="VfC05_isNewMaster", bounds="all 2^256 (candidate, existing) id pairs; no loops"),
